@@ -58,4 +58,9 @@ CHECKS = {
                  "consistent face by face, no opened edge outside cut_edges, and cut_edges must contain the border and be connected.",
          "design_ref": "DESIGN.md section 6 C16", "note": _NOTE + " Two genuine defects are recorded as known findings (K-C16-1, K-C16-2).",
          "technique": "runtime monitoring: reference analyser + structural oracle on the cut mesh"},
+ "C17": {"text": "Invariant monitor on TutteEmbedding output for generated triangulated disks: border vertices on the target (circle / square / custom "
+                 "convex polygon) at distinct positions in monotone border order, every interior vertex the weighted average of its neighbours (weights "
+                 "re-assembled by the harness), one strict orientation for all triangles where the theorem applies, agreement of per-vertex and per-corner "
+                 "storage and of flat_mesh, rejection of surfaces with Euler characteristic != 1.",
+         "design_ref": "DESIGN.md section 6 C17", "note": _NOTE, "technique": "runtime monitoring: output invariants with reference-assembled weights + storage-mode metamorphic check"},
 }
